@@ -443,6 +443,40 @@ func (s *DupAll) Next(n *Net) bool {
 	return false
 }
 
+// DupLate: FIFO, and after every delivery the delivery made Lag deliveries earlier is handed over once more
+// (a duplicate that arrives one or several rounds late, while the protocol is still running); at the end every
+// delivery is repeated once more.
+type DupLate struct {
+	Lag    int
+	flip   bool
+	redone int
+}
+
+func (s *DupLate) Next(n *Net) bool {
+	if u := n.Unstarted(); len(u) > 0 {
+		n.Start(u[0])
+		return true
+	}
+	if s.flip {
+		s.flip = false
+		if k := len(n.Done) - 1 - s.Lag; k >= 0 {
+			n.Redeliver(k)
+			return true
+		}
+	}
+	if len(n.Pending) > 0 {
+		n.Deliver(0)
+		s.flip = true
+		return true
+	}
+	if s.redone < len(n.Done) {
+		n.Redeliver(s.redone)
+		s.redone++
+		return true
+	}
+	return false
+}
+
 // Choices: every decision is taken from a pre-drawn list (rapid draws it; replay re-uses it).
 // Decision space at each step: [start u for u unstarted] ++ [deliver k for k pending] ++ (optionally) [redeliver].
 // When the list is exhausted the run continues FIFO.
